@@ -223,6 +223,6 @@ func TestC11(t *testing.T) {
 	r := core.Begin(t, "C11")
 	defer r.End()
 	core.DFS(r, core.Check[docCase]{Name: "small-derivations", Gen: genDoc(true, 1, 2, r.N(1, 2)), Exec: execDoc, NoJournal: true}, 0)
-	core.Rapid(r, core.Check[docCase]{Name: "random-derivations", Gen: genDoc(false, 3, 26), Exec: execDoc}, r.N(3000, 30000))
+	core.Rapid(r, core.Check[docCase]{Name: "random-derivations", Gen: genDoc(false, 3, 26), Exec: execDoc}, r.N(3000, 12000))
 	core.DFS(r, core.Check[badCase]{Name: "unrepresentable-literals", Gen: genBad, Exec: execBad}, 0)
 }
